@@ -187,8 +187,10 @@ def run(ctx: Ctx):
         # every (object, parameter set) once, every (object, uneven batching) and (object, non-zero companions) once, then the seeded remainder
         seen, first, rest = set(), [], []
         for c in cases:
-            ks = [("p", c["obj"], tuple(sorted(c["params"]))), ("b", c["obj"], c["batch"], tuple(sorted(c["params"]))[0]), ("c", c["obj"], c["companion"], c["lazy"]),
+            ks = [("p", c["obj"], tuple(sorted(c["params"]))), ("c", c["obj"], c["companion"], c["lazy"]),
                   ("w", c["obj"], c.get("weighted"), c["batch"], c["lazy"])]
+            # every parameter under every batching, lazily too, with ITS OWN series length (first parameter n1, second n2)
+            ks += [("b", c["obj"], c["batch"], p, c["lazy"], min(c["n1"] if i == 0 else c["n2"], 4)) for i, p in enumerate(sorted(c["params"]))]
             new = [k for k in ks if k not in seen]
             (first if new else rest).append(c)
             seen.update(ks)
